@@ -1,7 +1,8 @@
 (* C13 — a model survives serialisation: the attribute codecs.
-   Everything about Python's [ast.literal_eval] enters through two named premises on the oracle:
+   Everything about Python's [ast.literal_eval] enters through three named premises on the oracle:
      [oracle_spec]      literal_eval (str v) = v  for values of the sanitised types in the simple fragment
      [oracle_not_self]  literal_eval s is never the string s itself
+     [oracle_errors]    literal_eval rejects a string with ValueError or SyntaxError only
    Neither is an axiom; the harness validates both against Python on every run. *)
 From Coq Require Import String Ascii ZArith List Bool Lia.
 From XV Require Import Base.Scalar Model.PyVal Gen.T2 Model.Serial.
@@ -36,7 +37,14 @@ Definition looks_like_literal (s : string) : Prop :=
   (py_index s 0 = Some "["%char /\ py_index s (-1) = Some "]"%char) \/
   s = "True" \/ s = "False" \/ s = "None".
 
-Lemma should_empty : should_desanitize_str "" = Err EKeyError.
+Lemma looks_like_literal_nonempty : forall s, looks_like_literal s -> s <> "".
+Proof.
+  intros s H ->. unfold looks_like_literal in H. rewrite !py_index_empty in H.
+  destruct H as [[H _] | [[H _] | [H | [H | H]]]]; discriminate.
+Qed.
+
+(* the repaired guard `isinstance(attr, str) and attr`: the empty string is left alone *)
+Lemma should_empty : should_desanitize_str "" = Ok false.
 Proof. reflexivity. Qed.
 
 Lemma should_nonempty : forall c r,
@@ -44,6 +52,7 @@ Lemma should_nonempty : forall c r,
 Proof.
   intros c r. destruct (py_index_last_nonempty c r) as [l Hl].
   unfold should_desanitize_str, looks_like_literal, py_idx_eq.
+  change (py_str_truthy (String c r)) with true. cbv iota.
   rewrite py_index_first, Hl. rewrite ?rb_and_ok, ?rb_or_ok.
   eexists; split; [reflexivity|].
   cbn [existsb]. rewrite orb_false_r.
@@ -51,41 +60,39 @@ Proof.
   intuition congruence.
 Qed.
 
-Lemma should_total_iff : forall s e, should_desanitize_str s = Err e <-> s = "" /\ e = EKeyError.
+(* the test never raises *)
+Lemma should_total : forall s, exists b, should_desanitize_str s = Ok b.
 Proof.
-  intros s e. destruct s as [|c r].
-  - rewrite should_empty. split; [intros [= <-]; auto | intros [_ ->]; reflexivity].
-  - destruct (should_nonempty c r) as [b [Hb _]]. rewrite Hb. split; [discriminate | intros [[=] _]].
+  intros [|c r]; [exists false; apply should_empty|].
+  destruct (should_nonempty c r) as [b [Hb _]]. now exists b.
 Qed.
 
-Lemma should_true_iff : forall s, should_desanitize_str s = Ok true <-> s <> "" /\ looks_like_literal s.
+Lemma should_true_iff : forall s, should_desanitize_str s = Ok true <-> looks_like_literal s.
 Proof.
   intros [|c r].
-  - rewrite should_empty. split; [discriminate | intros [H _]; now elim H].
+  - rewrite should_empty. split; [discriminate | intros H; now elim (looks_like_literal_nonempty _ H)].
   - destruct (should_nonempty c r) as [b [Hb Hiff]]. rewrite Hb. split.
-    + intros [= ->]. split; [discriminate | now apply Hiff].
-    + intros [_ H]. apply Hiff in H. now subst.
+    + intros [= ->]. now apply Hiff.
+    + intros H. apply Hiff in H. now subst.
 Qed.
 
-Lemma should_false_iff : forall s, should_desanitize_str s = Ok false <-> s <> "" /\ ~ looks_like_literal s.
+Lemma should_false_iff : forall s, should_desanitize_str s = Ok false <-> ~ looks_like_literal s.
 Proof.
   intros [|c r].
-  - rewrite should_empty. split; [discriminate | intros [H _]; now elim H].
+  - rewrite should_empty. split; [intros _ H; now elim (looks_like_literal_nonempty _ H) | reflexivity].
   - destruct (should_nonempty c r) as [b [Hb Hiff]]. rewrite Hb. split.
-    + intros [= ->]. split; [discriminate|]. intros H. apply Hiff in H. discriminate.
-    + intros [_ H]. destruct b; [elim H; now apply Hiff | reflexivity].
+    + intros [= ->] H. apply Hiff in H. discriminate.
+    + intros H. destruct b; [elim H; now apply Hiff | reflexivity].
 Qed.
 
 Lemma should_bracket_list : forall x, should_desanitize_str ("[" ++ x ++ "]") = Ok true.
 Proof.
-  intros x. apply should_true_iff. split; [discriminate|].
-  right; left. split; [reflexivity | apply bracket_last].
+  intros x. apply should_true_iff. right; left. split; [reflexivity | apply bracket_last].
 Qed.
 
 Lemma should_bracket_dict : forall x, should_desanitize_str ("{" ++ x ++ "}") = Ok true.
 Proof.
-  intros x. apply should_true_iff. split; [discriminate|].
-  left. split; [reflexivity | apply bracket_last].
+  intros x. apply should_true_iff. left. split; [reflexivity | apply bracket_last].
 Qed.
 
 (* ------------------------------------------------------------------ the type test *)
@@ -115,19 +122,33 @@ Definition oracle_spec (le : string -> result pyv) : Prop :=
   forall v, is_sanitized_type v = true -> simple v = true -> le (py_str v) = Ok v.
 Definition oracle_not_self (le : string -> result pyv) : Prop :=
   forall s, le s <> Ok (PStr s).
+(* literal_eval rejects a string with ValueError or SyntaxError, nothing else *)
+Definition oracle_errors (le : string -> result pyv) : Prop :=
+  forall s k, le s = Err k -> In k [EValueError; ESyntaxError].
 
 Section Attr.
   Variable le : string -> result pyv.
 
+  Lemma literal_action_ok : forall s v, le s = Ok v -> literal_action le s = Ok v.
+  Proof. intros s v H. unfold literal_action. now rewrite H. Qed.
+
+  (* the wrapper `except (ValueError, SyntaxError): return attr` *)
+  Lemma literal_action_caught : forall s k, le s = Err k -> In k [EValueError; ESyntaxError] ->
+    literal_action le s = Ok (PStr s).
+  Proof.
+    intros s k H Hk. unfold literal_action. rewrite H.
+    destruct Hk as [<- | [<- | []]]; reflexivity.
+  Qed.
+
   Lemma desanitize_str : forall s,
     desanitize_attr le (PStr s) =
-    match should_desanitize_str s with Err e => Err e | Ok true => le s | Ok false => Ok (PStr s) end.
+    match should_desanitize_str s with Err e => Err e | Ok true => literal_action le s | Ok false => Ok (PStr s) end.
   Proof.
     intros s. unfold desanitize_attr, should_desanitize. cbn [pyv_isinstance pyv_tag existsb tag_sub orb].
     destruct (should_desanitize_str s) as [[|]|e]; reflexivity.
   Qed.
 
-  Lemma codec_sanitized : forall v, is_sanitized_type v = true -> codec_attr le v = le (py_str v).
+  Lemma codec_sanitized : forall v, is_sanitized_type v = true -> codec_attr le v = literal_action le (py_str v).
   Proof.
     intros v H. unfold codec_attr, sanitize_attr. rewrite H, desanitize_str.
     now rewrite (should_of_sanitized v H).
@@ -135,61 +156,70 @@ Section Attr.
 
   Theorem codec_structured : oracle_spec le ->
     forall v, is_sanitized_type v = true -> simple v = true -> codec_attr le v = Ok v.
-  Proof. intros Hle v Hs Hv. rewrite codec_sanitized by exact Hs. now apply Hle. Qed.
+  Proof. intros Hle v Hs Hv. rewrite codec_sanitized by exact Hs. apply literal_action_ok. now apply Hle. Qed.
 
   Theorem codec_numbers : forall v, pyv_tag v = TInt \/ pyv_tag v = TFloat -> codec_attr le v = Ok v.
   Proof. intros v [H|H]; destruct v; try discriminate H; reflexivity. Qed.
 
-  (* a string attribute: three cases, decided by the translated test *)
+  (* a string attribute: decided by the translated test, then by literal_eval under the wrapper *)
   Theorem codec_string_cases : forall s,
     codec_attr le (PStr s) =
-    match should_desanitize_str s with Err e => Err e | Ok true => le s | Ok false => Ok (PStr s) end.
+    match should_desanitize_str s with Err e => Err e | Ok true => literal_action le s | Ok false => Ok (PStr s) end.
   Proof. intros s. unfold codec_attr. change (sanitize_attr (PStr s)) with (PStr s). apply desanitize_str. Qed.
 
-  Theorem codec_string_empty : codec_attr le (PStr "") = Err EKeyError.
+  Theorem codec_string_empty : codec_attr le (PStr "") = Ok (PStr "").
   Proof. reflexivity. Qed.
 
-  Theorem codec_string_literal_like : forall s, s <> "" -> looks_like_literal s -> codec_attr le (PStr s) = le s.
+  Theorem codec_string_plain : forall s, ~ looks_like_literal s -> codec_attr le (PStr s) = Ok (PStr s).
   Proof.
-    intros s Hne Hl. rewrite codec_string_cases.
-    now rewrite (proj2 (should_true_iff s) (conj Hne Hl)).
+    intros s Hl. rewrite codec_string_cases. now rewrite (proj2 (should_false_iff s) Hl).
   Qed.
 
-  Theorem codec_string_plain : forall s, s <> "" -> ~ looks_like_literal s -> codec_attr le (PStr s) = Ok (PStr s).
+  Theorem codec_string_literal_like : forall s, looks_like_literal s -> codec_attr le (PStr s) = literal_action le s.
   Proof.
-    intros s Hne Hl. rewrite codec_string_cases.
-    now rewrite (proj2 (should_false_iff s) (conj Hne Hl)).
+    intros s Hl. rewrite codec_string_cases. now rewrite (proj2 (should_true_iff s) Hl).
   Qed.
 
-  (* the round trip returns the string itself exactly when the string is non-empty and the translated
-     test is false on it; it raises IndexError exactly on "", and on every other string it returns
-     whatever literal_eval makes of it (another type, or an exception) *)
-  Theorem codec_characterisation : oracle_not_self le -> forall s,
-    (codec_attr le (PStr s) = Ok (PStr s) <-> s <> "" /\ should_desanitize_str s = Ok false) /\
-    (codec_attr le (PStr s) = Err EKeyError /\ should_desanitize_str s = Err EKeyError <-> s = "") /\
-    (should_desanitize_str s = Ok true -> codec_attr le (PStr s) = le s /\ le s <> Ok (PStr s)).
+  (* no string attribute makes the decoder raise *)
+  Theorem codec_string_never_raises : oracle_errors le -> forall s, exists v, codec_attr le (PStr s) = Ok v.
   Proof.
-    intros Hns s. rewrite codec_string_cases. split; [|split].
-    - split.
-      + destruct (should_desanitize_str s) as [[|]|e] eqn:E; intros H; try discriminate.
-        * now elim (Hns s).
-        * apply should_false_iff in E. tauto.
-      + intros [_ ->]. reflexivity.
-    - split.
-      + intros [_ H]. now apply should_total_iff in H.
-      + intros ->. split; reflexivity.
-    - intros H. rewrite H. split; [reflexivity | apply Hns].
+    intros He s. rewrite codec_string_cases.
+    destruct (should_total s) as [[|] ->]; [|now exists (PStr s)].
+    destruct (le s) as [v|k] eqn:E.
+    - exists v. now apply literal_action_ok.
+    - exists (PStr s). apply (literal_action_caught s k E). now apply (He s).
   Qed.
 
-  Corollary codec_characterisation_literal : oracle_not_self le -> forall s,
-    codec_attr le (PStr s) = Ok (PStr s) <-> s <> "" /\ ~ looks_like_literal s.
+  (* the round trip returns the string itself exactly when the translated test is false on it or
+     literal_eval rejects it; it never raises; when the test is true and literal_eval accepts the
+     string, the value literal_eval made of it comes back, which is never the string *)
+  Theorem codec_characterisation : oracle_not_self le -> oracle_errors le -> forall s,
+    (codec_attr le (PStr s) = Ok (PStr s) <-> should_desanitize_str s = Ok false \/ exists k, le s = Err k) /\
+    (forall e, codec_attr le (PStr s) <> Err e) /\
+    (should_desanitize_str s = Ok true -> forall v, le s = Ok v -> codec_attr le (PStr s) = Ok v /\ v <> PStr s).
   Proof.
-    intros Hns s. rewrite (proj1 (codec_characterisation Hns s)), should_false_iff. tauto.
+    intros Hns He s. split; [|split].
+    - rewrite codec_string_cases. destruct (should_total s) as [[|] Hb]; rewrite Hb.
+      + destruct (le s) as [v|k] eqn:E.
+        * rewrite (literal_action_ok s v E). split.
+          -- intros [= ->]. now elim (Hns s).
+          -- intros [H | [k Hk]]; discriminate.
+        * rewrite (literal_action_caught s k E (He s k E)). split; [intros _; right; now exists k | reflexivity].
+      + split; [intros _; now left | reflexivity].
+    - intros e H. destruct (codec_string_never_raises He s) as [v Hv]. rewrite Hv in H. discriminate.
+    - intros Hb v Hv. rewrite codec_string_cases, Hb, (literal_action_ok s v Hv).
+      split; [reflexivity|]. intros ->. now elim (Hns s).
+  Qed.
+
+  Corollary codec_characterisation_literal : oracle_not_self le -> oracle_errors le -> forall s,
+    codec_attr le (PStr s) = Ok (PStr s) <-> ~ looks_like_literal s \/ exists k, le s = Err k.
+  Proof.
+    intros Hns He s. rewrite (proj1 (codec_characterisation Hns He s)), should_false_iff. tauto.
   Qed.
 
   (* ---------------------------------------------------------------- one dictionary *)
   Definition string_attr_ok (v : pyv) : Prop :=
-    match v with PStr s => s <> "" /\ should_desanitize_str s = Ok false | _ => True end.
+    match v with PStr s => should_desanitize_str s = Ok false \/ exists k, le s = Err k | _ => True end.
 
   Lemma desanitize_attrs_cons : forall k v r k' v' r',
     desanitize_attrs le ((k, v) :: r) = Ok ((k', v') :: r') <->
@@ -210,11 +240,11 @@ Section Attr.
     - destruct v; try (vm_compute in E; discriminate E); try reflexivity. now elim (Hns s).
   Qed.
 
-  Theorem codec_attrs_characterisation : oracle_spec le -> oracle_not_self le -> forall d,
+  Theorem codec_attrs_characterisation : oracle_spec le -> oracle_not_self le -> oracle_errors le -> forall d,
     (forall k v, In (k, v) d -> is_sanitized_type v = true -> simple v = true) ->
     (codec_attrs le d = Ok d <-> forall k v, In (k, v) d -> string_attr_ok v).
   Proof.
-    intros Hle Hns d. unfold codec_attrs. induction d as [|[k v] r IH]; intros Hsimple.
+    intros Hle Hns He d. unfold codec_attrs. induction d as [|[k v] r IH]; intros Hsimple.
     - cbn. split; [intros _ k v [] | reflexivity].
     - cbn [sanitize_attrs map fst snd]. fold (sanitize_attrs r). rewrite desanitize_attrs_cons.
       fold (codec_attr le v).
@@ -223,17 +253,17 @@ Section Attr.
       specialize (IH Hr). split.
       + intros [_ [Hv Hrest]] k0 v0 [[= <- <-] | Hin].
         * destruct v; cbn [string_attr_ok]; auto.
-          now apply (proj1 (codec_characterisation Hns s)).
+          now apply (proj1 (codec_characterisation Hns He s)).
         * now apply (proj1 IH Hrest k0 v0).
       + intros Hall. split; [reflexivity|]. split.
         * assert (Hv := Hall k v (or_introl eq_refl)).
           destruct v as [| | | |s| |]; try (apply codec_attr_nonstring; [exact Hle | apply (Hsimple k); now left | discriminate]).
-          now apply (proj1 (codec_characterisation Hns s)).
+          now apply (proj1 (codec_characterisation Hns He s)).
         * apply IH. intros k0 v0 Hin. apply (Hall k0 v0). now right.
   Qed.
 End Attr.
 
-(* ------------------------------------------------------------------ refutation: concrete witnesses *)
+(* ------------------------------------------------------------------ witnesses *)
 (* a small concrete partial evaluator: exactly what Python's literal_eval answers on these inputs *)
 Definition toy_literal_eval (s : string) : result pyv :=
   if String.eqb s "True" then Ok (PBool true)
@@ -241,11 +271,16 @@ Definition toy_literal_eval (s : string) : result pyv :=
   else if String.eqb s "None" then Ok PNone
   else if String.eqb s "[1, 2]" then Ok (PList [PInt 1; PInt 2])
   else if String.eqb s "{'a': None}" then Ok (PDict [("a", PNone)])
+  else if String.eqb s "[m s-1]" then Err ESyntaxError
   else Err EValueError.   (* "[m/s]", "{a}": ValueError: malformed node or string *)
 
-Theorem codec_refuted_witnesses :
-  codec_attrs toy_literal_eval [("units", PStr "")] = Err EKeyError /\
-  codec_attrs toy_literal_eval [("units", PStr "[m/s]")] = Err EValueError /\
+(* after the repair: "", "[m/s]", "{a}", "[m s-1]" come back as they were; the literal-looking strings
+   "True", "None", "[1, 2]" still change type *)
+Theorem codec_witnesses :
+  codec_attrs toy_literal_eval [("units", PStr "")] = Ok [("units", PStr "")] /\
+  codec_attrs toy_literal_eval [("units", PStr "[m/s]")] = Ok [("units", PStr "[m/s]")] /\
+  codec_attrs toy_literal_eval [("units", PStr "{a}")] = Ok [("units", PStr "{a}")] /\
+  codec_attrs toy_literal_eval [("units", PStr "[m s-1]")] = Ok [("units", PStr "[m s-1]")] /\
   codec_attrs toy_literal_eval [("flag", PStr "True")] = Ok [("flag", PBool true)] /\
   codec_attrs toy_literal_eval [("missing", PStr "None")] = Ok [("missing", PNone)] /\
   codec_attrs toy_literal_eval [("levels", PStr "[1, 2]")] = Ok [("levels", PList [PInt 1; PInt 2])] /\
@@ -253,26 +288,41 @@ Theorem codec_refuted_witnesses :
     = Ok [("levels", PList [PInt 1; PInt 2]); ("p", PDict [("a", PNone)]); ("name", PStr "abc")].
 Proof. vm_compute. repeat split. Qed.
 
-(* whatever literal_eval does: no oracle makes the round trip the identity on all dictionaries, and
-   every oracle with Python's behaviour on str(True) turns the string "True" into a bool *)
-Theorem codec_refuted : forall le,
-  codec_attrs le [("units", PStr "")] = Err EKeyError /\
-  (oracle_spec le -> codec_attrs le [("flag", PStr "True")] = Ok [("flag", PBool true)]) /\
-  (oracle_not_self le -> codec_attrs le [("units", PStr "[m/s]")] <> Ok [("units", PStr "[m/s]")]) /\
+(* positive, for every oracle: the empty string round-trips, and so does every string literal_eval rejects *)
+Theorem codec_repaired_strings : forall le,
+  codec_attrs le [("units", PStr "")] = Ok [("units", PStr "")] /\
+  (forall s k, le s = Err k -> In k [EValueError; ESyntaxError] ->
+     codec_attrs le [("units", PStr s)] = Ok [("units", PStr s)]).
+Proof.
+  intros le. split; [reflexivity|]. intros s k Hk Hin.
+  unfold codec_attrs. cbn [sanitize_attrs map fst snd desanitize_attrs]. fold (codec_attr le (PStr s)).
+  rewrite codec_string_cases. destruct (should_total s) as [[|] ->]; [|reflexivity].
+  now rewrite (literal_action_caught le s k Hk Hin).
+Qed.
+
+(* still refuted: with Python's literal_eval the strings "True", "None", "[1, 2]" come back as a bool, None, a list,
+   so the round trip is not the identity on all attribute dictionaries *)
+Theorem codec_refuted : forall le, oracle_spec le ->
+  codec_attrs le [("flag", PStr "True")] = Ok [("flag", PBool true)] /\
+  codec_attrs le [("missing", PStr "None")] = Ok [("missing", PNone)] /\
+  codec_attrs le [("levels", PStr "[1, 2]")] = Ok [("levels", PList [PInt 1; PInt 2])] /\
   ~ (forall d, codec_attrs le d = Ok d).
 Proof.
-  intros le. assert (H0 : codec_attrs le [("units", PStr "")] = Err EKeyError) by reflexivity.
-  split; [exact H0 | split; [| split]].
-  - intros Hle. unfold codec_attrs. cbn [sanitize_attrs map fst snd desanitize_attrs].
-    fold (codec_attr le (PStr "True")). rewrite codec_string_cases.
-    change (should_desanitize_str "True") with (@Ok bool true).
-    change "True" with (py_str (PBool true)). rewrite Hle by reflexivity. reflexivity.
-  - intros Hns. unfold codec_attrs. cbn [sanitize_attrs map fst snd desanitize_attrs].
-    fold (codec_attr le (PStr "[m/s]")). rewrite codec_string_cases.
-    change (should_desanitize_str "[m/s]") with (@Ok bool true).
-    destruct (le "[m/s]") as [w|e] eqn:E; [|discriminate].
-    intros [= ->]. now elim (Hns "[m/s]").
-  - intros Hall. specialize (Hall [("units", PStr "")]). rewrite H0 in Hall. discriminate.
+  intros le Hle.
+  assert (H : forall v, is_sanitized_type v = true -> simple v = true -> should_desanitize_str (py_str v) = Ok true ->
+              codec_attrs le [("k", PStr (py_str v))] = Ok [("k", v)] /\
+              forall k, codec_attrs le [(k, PStr (py_str v))] = Ok [(k, v)]).
+  { intros v Hs Hv Hb. assert (forall k, codec_attrs le [(k, PStr (py_str v))] = Ok [(k, v)]).
+    { intros k. unfold codec_attrs. cbn [sanitize_attrs map fst snd desanitize_attrs].
+      fold (codec_attr le (PStr (py_str v))). rewrite codec_string_cases, Hb.
+      now rewrite (literal_action_ok le _ v (Hle v Hs Hv)). }
+    split; auto. }
+  pose proof (proj2 (H (PBool true) eq_refl eq_refl eq_refl) "flag") as H1.
+  pose proof (proj2 (H PNone eq_refl eq_refl eq_refl) "missing") as H2.
+  pose proof (proj2 (H (PList [PInt 1; PInt 2]) eq_refl eq_refl eq_refl) "levels") as H3.
+  split; [exact H1 | split; [exact H2 | split; [exact H3|]]].
+  intros Hall. specialize (Hall [("flag", PStr "True")]). change "True" with (py_str (PBool true)) in Hall.
+  rewrite H1 in Hall. discriminate.
 Qed.
 
 (* ------------------------------------------------------------------ trees *)
@@ -354,18 +404,18 @@ Section Tree.
   Qed.
 End Tree.
 
-(* a tree round-trips through the netCDF codec exactly when no attribute dictionary in it — at node
-   level or at variable level — holds an empty or literal-looking string *)
-Theorem codec_tree_strings : forall le, oracle_spec le -> oracle_not_self le -> forall t,
+(* a tree round-trips through the netCDF codec exactly when every string attribute in it — at node
+   level or at variable level — is either not literal-looking or rejected by literal_eval *)
+Theorem codec_tree_strings : forall le, oracle_spec le -> oracle_not_self le -> oracle_errors le -> forall t,
   (forall d k v, In d (tree_dicts t) -> In (k, v) d -> is_sanitized_type v = true -> simple v = true) ->
   (codec_tree le t = Ok t <->
-   forall d k v, In d (tree_dicts t) -> In (k, v) d -> string_attr_ok v).
+   forall d k v, In d (tree_dicts t) -> In (k, v) d -> string_attr_ok le v).
 Proof.
-  intros le Hle Hns t Hsimple. rewrite codec_tree_characterisation, Forall_forall. split.
+  intros le Hle Hns He t Hsimple. rewrite codec_tree_characterisation, Forall_forall. split.
   - intros H d k v Hd Hin. specialize (H d Hd).
-    apply (proj1 (codec_attrs_characterisation le Hle Hns d (fun k v => Hsimple d k v Hd)) H k v Hin).
+    apply (proj1 (codec_attrs_characterisation le Hle Hns He d (fun k v => Hsimple d k v Hd)) H k v Hin).
   - intros H d Hd.
-    apply (proj2 (codec_attrs_characterisation le Hle Hns d (fun k v => Hsimple d k v Hd))).
+    apply (proj2 (codec_attrs_characterisation le Hle Hns He d (fun k v => Hsimple d k v Hd))).
     intros k v Hin. exact (H d k v Hd Hin).
 Qed.
 
@@ -388,7 +438,13 @@ Proof.
 Qed.
 
 (* ------------------------------------------------------------------ premises are met *)
-(* the toy evaluator satisfies the oracle premise on every value it knows, and never returns its input *)
+(* the toy evaluator satisfies the oracle premises: right on every value it knows, only ValueError/SyntaxError *)
+Example toy_oracle_errors : oracle_errors toy_literal_eval.
+Proof.
+  intros s k. unfold toy_literal_eval.
+  repeat match goal with |- context [if ?b then _ else _] => destruct b end; intros [= <-]; cbn; auto.
+Qed.
+
 Example toy_oracle_on_samples :
   Forall (fun v => is_sanitized_type v = true /\ simple v = true /\ toy_literal_eval (py_str v) = Ok v)
          [PNone; PBool true; PBool false; PList [PInt 1; PInt 2]; PDict [("a", PNone)]].
